@@ -599,8 +599,7 @@ class PeriodicAtomicOrbitalEvaluator(gto.AtomicOrbitalEvaluator):
         self.kpts = kpts
         eval_gto_precision = 1e-2 if eval_gto_precision is None else eval_gto_precision
         self.rcut = _estimate_rcut(cell, eval_gto_precision)  # .max()
-        Ls = cell.get_lattice_Ls(rcut=self.rcut.max(), dimension=3)
-        self.Ls = Ls[np.argsort(np.linalg.norm(Ls, axis=1))]
+        self.Ls = pyqorb.get_lattice_Ls_for_orbitals(cell, self.rcut.max())
         expcutoff = -3.5 * np.log(eval_gto_precision)  # this number is a guess
         # print("expcutoff", expcutoff, np.exp(-expcutoff))
         self.num_Ls, self.atom_cutoff, self.l_cutoff = max_Ls(
@@ -615,6 +614,10 @@ class PeriodicAtomicOrbitalEvaluator(gto.AtomicOrbitalEvaluator):
         # print("num_Ls", self.num_Ls)
         # print("atom_cutoff", self.atom_cutoff)
         # print("l_cutoff", self.l_cutoff)
+        # max_Ls counts the images needed half a cell diagonal away from an atom; an atom near a face or
+        # corner of the cell needs images up to a whole diagonal away, so every image of the list is
+        # offered to every atom (the distance cutoffs skip the ones that do not reach the point)
+        self.num_Ls[:] = len(self.Ls)
         self.Lmax = self.num_Ls.max()
 
         phases = np.exp(1j * self.Ls @ kpts.T)
